@@ -308,7 +308,9 @@ lemma val_prefix(s string, hi int, k int)
 
 lemma alldig_prefix(s string, hi int)
   requires 0 <= hi && hi <= len(s)
-  ensures alldig(s[:hi], 0, hi) == alldig(s, 0, hi)
+  ensures alldig(s[:hi], 0, hi) ==> alldig(s, 0, hi)
+  ensures alldig(s, 0, hi) ==> alldig(s[:hi], 0, hi)
+  { assert forall k int :: 0 <= k && k < hi ==> s[:hi][k] == s[k] }
 
 // every byte of a well-formed version string is in the (largest) Policy alphabet: in particular ASCII and no blank
 lemma wf_chars(t string, k int)
